@@ -91,6 +91,7 @@ def determinism(prop, n=200) -> int:
 # (name, relative file, old text, new text, expected: 'caught' | 'quiet')
 MUTANTS = {
     "C10": [
+        ("synthesize-rebases-existing-class", "tatsu/objectmodel/synth.py", "        if isinstance(found, type) and found.__bases__ == bases:\n            return found\n", "        if isinstance(found, type) and found.__bases__ == bases:\n            return found\n        if isinstance(found, type):\n            try:\n                found.__bases__ = bases  # keep ONE class per name: move it under the bases asked for now\n                return found\n            except TypeError:\n                pass\n", "caught"),
         ("cache-key-without-asmodel", "tatsu/api/api.py", "key = (name, hasha(grammar), id(semantics), asmodel, settings_key)", "key = (name, hasha(grammar), id(semantics), settings_key)", "caught"),
         ("cache-key-without-settings", "tatsu/api/api.py", "key = (name, hasha(grammar), id(semantics), asmodel, settings_key)", "key = (name, hasha(grammar), id(semantics), asmodel)", "caught"),
         ("cache-key-without-name", "tatsu/api/api.py", "key = (name, hasha(grammar), id(semantics), asmodel, settings_key)", "key = (hasha(grammar), id(semantics), asmodel, settings_key)", "caught"),
